@@ -672,7 +672,9 @@ func c05RestartClockMonotonic(r *Run) {
 					}
 					av, aenv := stripConvE(arg, xf.env)
 					_ = aenv
-					if r.Prog.dependsOnIP(av, func(x ssa.Value) bool { return hasPathSuffix(x, "LastUpdateTime", "Time") || hasPathSuffix(x, "LastUpdateTime") }) {
+					if r.Prog.dependsOnIP(av, func(x ssa.Value) bool {
+						return hasPathSuffix(x, "LastUpdateTime", "Time") || hasPathSuffix(x, "LastUpdateTime")
+					}) {
 						found = true
 					}
 				}
